@@ -2,12 +2,12 @@
 
 Alphabet: every bit string of length 0..10 and six patterns for every length 11..1023; reference
 counts 0..4; every DAG shape with <= 3 (quick) / <= 4 (thorough) distinct cells; depth chains
-1..1023 (+1024 must be refused); 21 construction routes.  Oracle: mc/ref/cell.py.
+1..1023 (+1024 must be refused); 22 construction routes.  Oracle: mc/ref/cell.py.
 """
 import base64, itertools
 from ..ref import cell as RC
 from . import dags
-from .common import filler_bits, to_lib, lib_canon, exc_name
+from .common import filler, filler_bits, to_lib, lib_canon, exc_name
 
 ID = 'C01'
 TITLE = 'Cell hash and depth are the TON representation hash and depth'
@@ -30,7 +30,7 @@ NOT_ASSERTED = []
 
 ROUTES = ['builder', 'ctor_tvm', 'ctor_plain', 'ctor_plain_le', 'boc_bytes', 'boc_hex', 'boc_b64', 'copy', 'parse_to_cell', 'slice_from_cell',
           'to_builder', 'builder_to_slice', 'builder_from_boc', 'slice_from_boc', 'boc_options', 'builder_reused', 'slice_reused', 'derived_mutated',
-          'subclass_boc', 'subclass_ctor', 'subclass_copy']
+          'subclass_boc', 'subclass_ctor', 'subclass_copy', 'slice_consumed']
 
 
 def BOUNDS(tier):
@@ -43,7 +43,7 @@ def selftest():
 
 
 def REQUIRED_COVER(tier):
-    return {'len:0', 'len:1023', 'refs:4', 'unaligned', 'chain:1023', 'chain:1024-refused', 'shared-child', 'route:ctor_plain', 'route:boc_b64'}
+    return {'len:0', 'len:1023', 'refs:4', 'unaligned', 'chain:1023', 'chain:1024-refused', 'shared-child', 'route:ctor_plain', 'route:boc_b64', 'over-exotic:mask3', 'over-exotic:mask5', 'over-exotic:mask7'}
 
 
 def shards(tier, seed):
@@ -66,6 +66,8 @@ def shards(tier, seed):
         for part in range(8):                      # every DAG with 5 cells and at most 2 references per cell
             out.append({'fn': 'shard_shapes', 'args': {'n': 5, 'part': part, 'parts': 8, 'max_refs': 2}, 'prio': 4})
     out.append({'fn': 'shard_chains', 'args': {}, 'prio': 3})
+    for part in range(4):
+        out.append({'fn': 'shard_over_exotic', 'args': {'part': part, 'parts': 4}, 'prio': 2})
     out.append({'fn': 'shard_equality', 'args': {}})
     return out
 
@@ -172,6 +174,27 @@ def _routes(rc, refs_lib):
         b.end_cell(), k.end_cell()
         return c
 
+    def slice_consumed():
+        # the cell is what REMAINS of a bigger cell's slice after a prefix was read - with to_cell() also called on the way
+        # (after nothing, after a reference, after bits): each to_cell() is the cell of what remains at that moment
+        extra = base().end_cell()
+        pre_bits = '101' if len(rc.bits) <= 1020 else ''
+        big = Builder().store_bits(pre_bits + rc.bits)
+        pre_ref = len(refs_lib) < 4
+        if pre_ref:
+            big.store_ref(extra)
+        for r in refs_lib:
+            big.store_ref(r)
+        s = big.end_cell().begin_parse()
+        s.to_cell()
+        if pre_ref:
+            s.load_ref()
+            s.to_cell()
+        if pre_bits:
+            s.load_bits(3)
+        return s.to_cell()
+
+    yield 'slice_consumed', slice_consumed
     yield 'derived_mutated', derived_mutated
     yield 'builder_reused', builder_reused
     yield 'slice_reused', slice_reused
@@ -427,6 +450,75 @@ def shard_chains(rec):
         for width, pos in ((1, 0), (2, 0), (2, 1), (4, 0), (4, 2), (4, 3)):
             case_chain(rec, depth, pos, width)
     rec.sample({'chain_depth': 1024, 'deep_child_position': '3 of 4', 'expect': 'refused'})
+
+
+# ------------------------------------------------------------------ ordinary cells whose children are exotic
+def exotic_kids(seed):
+    """child alphabet: pruned branches with every level mask 1..7, a library reference, a Merkle proof, a plain leaf"""
+    kids = {}
+    for mask in range(1, 8):
+        n = bin(mask).count('1')
+        hs = [filler(seed, f'c01x-{mask}-{i}', 32) for i in range(n)]
+        ds = [int.from_bytes(filler(seed, f'c01xd-{mask}-{i}', 2), 'big') % 900 for i in range(n)]
+        kids[f'p{mask}'] = RC.pruned_raw(mask, hs, ds)
+    kids['lib'] = RC.library(filler(seed, 'c01x-lib', 32))
+    kids['proof'] = RC.mproof(RC.RCell('1100', (RC.RCell('1'), RC.prune(RC.RCell('0110', (RC.RCell(''),)), 1))))
+    kids['leaf'] = RC.RCell('10')
+    return kids
+
+
+def case_over_exotic(rec, names, nbits):
+    """an ORDINARY cell (and an ordinary cell above it) whose children are the named cells: its level mask is the OR of theirs; at every
+    level its hash / depth are the standard ones over the children's hash / depth at that level; hash = the hash at its own level;
+    the recomputed representation hash agrees with it - through the construction routes, a copy, a slice and a bag of cells"""
+    from pytoniq_core.boc import Cell, Builder, Slice
+    rec.case('over-exotic')
+    args = {'names': list(names), 'nbits': nbits}
+    alpha = exotic_kids(rec.seed)
+    parent = RC.RCell(('10110101' * 2)[:nbits], tuple(alpha[n] for n in names))
+    grand = RC.RCell('011', (RC.RCell('1'), parent))
+    rec.state(('over-exotic', tuple(names), nbits))
+    rec.nontriv(('over-exotic', tuple(names), nbits))
+    rec.covered(f'over-exotic:mask{parent.mask}')
+    for route in ('builder', 'ctor'):
+        try:
+            memo = {}
+            g = to_lib(grand, memo, route)
+            cells = [(g, grand), (g.refs[1], parent)]
+            cells += [(g.refs[1].copy(), parent), (g.refs[1].begin_parse().to_cell(), parent), (Slice.from_cell(g).to_cell(), grand),
+                      (g.refs[1].to_builder().end_cell(), parent)]
+            back = Cell.one_from_boc(g.to_boc())
+            cells += [(back, grand), (back.refs[1], parent)]
+            rec.trans(len(cells))
+        except Exception as e:
+            rec.violation(f'over-exotic:construct:{route}', f'ordinary cell over {list(names)} ({nbits} bits) via {route} raised {exc_name(e)}: {e}', 'case_over_exotic', args)
+            return
+        for i, (cell, rc) in enumerate(cells):
+            bad = _compare(cell, rc)
+            if cell.level_mask.mask != rc.mask:
+                bad.insert(0, f'level mask {cell.level_mask.mask} != {rc.mask}')
+            rec.trace()
+            if bad:
+                rec.violation(f'over-exotic:{bad[0].split()[0]}', f'ordinary cell over {list(names)} ({nbits} bits), object #{i} via {route}: ' + '; '.join(bad[:4]), 'case_over_exotic', args)
+                rec.outcome('DISAGREE')
+                return
+    rec.outcome('agree')
+
+
+def shard_over_exotic(rec, part, parts):
+    names = sorted(exotic_kids(rec.seed))
+    i = 0
+    for k in (1, 2, 3):
+        for combo in itertools.product(names, repeat=k):
+            if k == 3 and not (combo[0] <= combo[1]):
+                continue            # three children: the first two in one order only (every pair of masks still meets a third cell on each side)
+            i += 1
+            if i % parts != part:
+                continue
+            for nbits in ((0, 5, 8) if k < 3 else (5,)):
+                case_over_exotic(rec, combo, nbits)
+    if part == 0:
+        rec.sample({'children': ['p1', 'p2'], 'parent_bits': 5, 'expect': 'level mask 3; hash(l), depth(l) for l = 0..3; calculate_representation_hash() == hash'})
 
 
 # ------------------------------------------------------------------ equality / dict keys over a pool
